@@ -180,6 +180,20 @@ def check_negzero(b, mi, res: Result, w):
                               dict(w, negzero=fi.number))
 
 
+def _poison(b, cls, mi, res: Result):
+    """len() / bytes() of a message holding an out-of-range value in a packed / fixed-width field raise half-way"""
+    names = attr_names(cls)
+    for fi in mi.fields:
+        if fi.label == "repeated" and fi.kind in ("fixed32", "fixed64", "sfixed32", "uint32", "int32", "sint64") and fi.number in names:
+            bad = cls(**{names[fi.number]: [1, 2, -(2**70), 3]})
+            for fn in (len, bytes):
+                try:
+                    fn(bad)
+                except Exception:
+                    res.note("poisoned_measurements")
+            return
+
+
 def check_case(b, bp, ref, mi, tree, res: Result, w, rng):
     if w.get("tag") == "empty" or w.get("negzero"):
         check_negzero(b, mi, res, w)
@@ -192,6 +206,8 @@ def check_case(b, bp, ref, mi, tree, res: Result, w, rng):
             res.note("variant-unbuildable:" + vname)  # C01/C08 territory
             continue
         res.note("len_checked")
+        if vname == "ctor":
+            _poison(b, cls, mi, res)  # a measurement that FAILS on another object must not leak into this one
         fails = _observe(m)
         if not fails:
             continue
